@@ -368,6 +368,70 @@ func cmdC18(c *ctx) {
 		c.count("blob")
 		nb++
 	}
+	// 7. generated graphics entry points with every signature row count (PSV0 tables depend on ceil(rows / 8))
+	ngen := 12
+	if c.tier == "thorough" {
+		ngen = 200
+	}
+	for i := 0; i < ngen; i++ {
+		var src, label string
+		if c.chance(0.6) {
+			nLoc := c.rng.Intn(16)
+			nIn := 1 + c.rng.Intn(4)
+			if i < 16 {
+				nLoc = i // every output row count 1..16 is covered in each run
+			}
+			var members, assigns, ins strings.Builder
+			for k := 0; k < nLoc; k++ {
+				fmt.Fprintf(&members, "    @location(%d) v%d: vec4<f32>,\n", k, k)
+				fmt.Fprintf(&assigns, "    o.v%d = a0 * %d.0;\n", k, k+1)
+			}
+			for k := 0; k < nIn; k++ {
+				if k > 0 {
+					ins.WriteString(", ")
+				}
+				fmt.Fprintf(&ins, "@location(%d) a%d: vec4<f32>", k, k)
+			}
+			src = fmt.Sprintf("struct VOut {\n    @builtin(position) pos: vec4<f32>,\n%s}\n@vertex\nfn vs_main(%s) -> VOut {\n    var o: VOut;\n    o.pos = a0;\n%s    return o;\n}\n", members.String(), ins.String(), assigns.String())
+			label = fmt.Sprintf("gen-vertex-in%d-out%d", nIn, nLoc+1)
+		} else {
+			n := 1 + c.rng.Intn(8)
+			var members, assigns strings.Builder
+			for k := 0; k < n; k++ {
+				fmt.Fprintf(&members, "    @location(%d) c%d: vec4<f32>,\n", k, k)
+				fmt.Fprintf(&assigns, "    o.c%d = a * %d.0;\n", k, k+1)
+			}
+			src = fmt.Sprintf("struct FOut {\n%s}\n@fragment\nfn fs_main(@location(0) a: vec4<f32>) -> FOut {\n    var o: FOut;\n%s    return o;\n}\n", members.String(), assigns.String())
+			label = fmt.Sprintf("gen-fragment-targets%d", n)
+		}
+		m := lowerQuiet(src)
+		if m == nil || len(m.EntryPoints) == 0 {
+			c.count("gen-graphics-rejected")
+			continue
+		}
+		minor := uint32(c.rng.Intn(7))
+		bypass := c.chance(0.3)
+		var out []byte
+		res := safely(func() string {
+			var err error
+			out, err = dxil.Compile(m, dxil.Options{ShaderModel: dxil.ShaderModel{Major: 6, Minor: minor}, UseBypassHash: bypass})
+			if err != nil {
+				return "error " + oneLine(err.Error())
+			}
+			return "ok"
+		})
+		if res != "ok" {
+			c.count("gen-graphics-" + strings.SplitN(res, " ", 2)[0])
+			continue
+		}
+		by := 0
+		if bypass {
+			by = 1
+		}
+		c.line("cases.txt", fmt.Sprintf("(blob %s %d 6 %d %d %s)", q(label), stageKind(m.EntryPoints[0].Stage), minor, by, qhex(out)))
+		c.line("impl.txt", "ok det")
+		c.count("blob-generated-graphics")
+	}
 }
 
 // D3D shader kinds (DXIL spec: D3D11_SB_SHADER_TYPE / DXIL::ShaderKind).
